@@ -690,7 +690,91 @@ pub struct World {
 }
 
 fn mk_ctx(keep: &Arc<CtxP>) -> CArc<c_void> {
+    if FOREIGN_CTX.load(std::sync::atomic::Ordering::SeqCst) {
+        return fctx::make(keep.clone());
+    }
     CArc::<CtxP>::from(keep.clone()).into_opaque()
+}
+
+/// every other behaviour runs with contexts made by "foreign code" (CArc.tla: FromForeign)
+pub static FOREIGN_CTX: std::sync::atomic::AtomicBool = std::sync::atomic::AtomicBool::new(false);
+
+/// A context the way a C / C++ host makes one: the three published words, filled in by hand, over the host's own
+/// reference-counting scheme - here one HANDLE OBJECT per reference (its clone function returns a new handle object, its
+/// drop function must be given each handle object it handed out exactly once).  Every handle object keeps one reference
+/// on the environment's context value, so the projection's count is still the number of holders.  Handle objects are kept
+/// until the next behaviour starts: a second release is counted instead of being undefined.
+mod fctx {
+    use super::CtxP;
+    use cglue::arc::CArc;
+    use cglue::trait_group::c_void;
+    use std::sync::atomic::{AtomicUsize, Ordering::SeqCst};
+    use std::sync::{Arc, Mutex};
+    use vkit::ledger;
+
+    struct FH {
+        arc: Mutex<Option<Arc<CtxP>>>,
+    }
+    #[repr(C)]
+    struct RawCtx {
+        instance: *const c_void,
+        clone_fn: Option<unsafe extern "C" fn(*const c_void) -> *const c_void>,
+        drop_fn: Option<unsafe extern "C" fn(*const c_void)>,
+    }
+    static HANDLES: Mutex<Vec<usize>> = Mutex::new(Vec::new());
+    pub static BAD: AtomicUsize = AtomicUsize::new(0);
+
+    fn new_handle(arc: Arc<CtxP>) -> *const c_void {
+        ledger::untracked(|| {
+            let h = Box::into_raw(Box::new(FH { arc: Mutex::new(Some(arc)) }));
+            HANDLES.lock().unwrap().push(h as usize);
+            h as *const c_void
+        })
+    }
+    fn known(p: *const c_void) -> Option<&'static FH> {
+        if HANDLES.lock().unwrap().contains(&(p as usize)) {
+            Some(unsafe { &*(p as *const FH) })
+        } else {
+            None
+        }
+    }
+    unsafe extern "C" fn f_clone(p: *const c_void) -> *const c_void {
+        let arc = known(p).and_then(|h| h.arc.lock().unwrap().clone());
+        match arc {
+            Some(a) => new_handle(a),
+            None => {
+                // cloned through a handle object that was never handed out, or that has been released already
+                BAD.fetch_add(1, SeqCst);
+                p
+            }
+        }
+    }
+    unsafe extern "C" fn f_drop(p: *const c_void) {
+        let arc = known(p).and_then(|h| h.arc.lock().unwrap().take());
+        match arc {
+            Some(a) => ledger::untracked(|| drop(a)),
+            None => {
+                BAD.fetch_add(1, SeqCst);
+            }
+        }
+    }
+    pub fn make(arc: Arc<CtxP>) -> CArc<c_void> {
+        let raw = RawCtx { instance: new_handle(arc), clone_fn: Some(f_clone), drop_fn: Some(f_drop) };
+        assert_eq!(std::mem::size_of::<RawCtx>(), std::mem::size_of::<CArc<c_void>>());
+        unsafe { std::mem::transmute::<RawCtx, CArc<c_void>>(raw) }
+    }
+    /// handle objects still holding their reference
+    pub fn live() -> usize {
+        HANDLES.lock().unwrap().iter().filter(|&&h| unsafe { &*(h as *const FH) }.arc.lock().unwrap().is_some()).count()
+    }
+    pub fn reset() {
+        ledger::untracked(|| {
+            for h in HANDLES.lock().unwrap().drain(..) {
+                drop(unsafe { Box::from_raw(h as *mut FH) });
+            }
+        });
+        BAD.store(0, SeqCst);
+    }
 }
 
 macro_rules! build_obj {
@@ -710,6 +794,7 @@ macro_rules! build_obj {
 impl World {
     pub fn new(nslots: usize, nctx: usize, be: Backend) -> Self {
         be.reset();
+        fctx::reset();
         payload::LATE_PAYLOAD_DROPS.store(0, std::sync::atomic::Ordering::SeqCst);
         for c in CTX_DROPS.iter() {
             c.store(0, std::sync::atomic::Ordering::SeqCst);
@@ -1083,6 +1168,9 @@ impl World {
         if payload::LATE_PAYLOAD_DROPS.swap(0, std::sync::atomic::Ordering::SeqCst) > 0 {
             return ("bad:ctx", "a payload's destructor ran after the context of the same object had been released (the last holder let the context go before its instance)".into());
         }
+        if fctx::BAD.swap(0, std::sync::atomic::Ordering::SeqCst) > 0 {
+            return ("bad:ctx", "a foreign-made context: a handle object was released twice, or a clone was taken / a release made through a handle the context's clone function never returned".into());
+        }
         if CTX_RELEASED_IN_CALLEE.swap(0, std::sync::atomic::Ordering::SeqCst) > 0 {
             return ("bad:ctx", "the context was released while a by-value call was still executing in the callee (no guard clone alive across the call)".into());
         }
@@ -1114,6 +1202,9 @@ impl World {
         }
         if payload::LATE_PAYLOAD_DROPS.swap(0, std::sync::atomic::Ordering::SeqCst) > 0 {
             return ("bad:ctx", "a payload's destructor ran after the context of the same object had been released".into());
+        }
+        if fctx::BAD.swap(0, std::sync::atomic::Ordering::SeqCst) > 0 {
+            return ("bad:ctx", "a foreign-made context: a handle object was released twice or through a handle its clone function never returned".into());
         }
         let mut known = false;
         for c in 1..=self.nctx {
@@ -1163,6 +1254,8 @@ fn replay(lines: &[String], nslots: usize, nctx: usize, plugin: &Option<String>)
         vkit::mark(bi);
         let beh: Value = serde_json::from_str(line).expect("behaviour json");
         crate::xmodad::AllocTrace::begin();
+        // every other behaviour with contexts made by foreign code (one handle object per reference)
+        FOREIGN_CTX.store(bi % 2 == 1, std::sync::atomic::Ordering::SeqCst);
         let mut w = World::new(nslots, nctx, mk_backend(plugin));
         let mut failed = None;
         let mut beh_known = false;
